@@ -52,16 +52,25 @@ def ambiguous_walls(zname, year):
     z = zone(zname)
     out = []
     if z is not None:
-        t = _dt.datetime(year, 1, 1)
+        # days on which the offset changes (compared at consecutive midnights), then the 30-minute grid of those days
+        day = _dt.datetime(year, 1, 1)
+        one = _dt.timedelta(days=1)
+        days = []
+        while day.year == year:
+            nxt = day + one
+            if nxt.year == year and day.replace(tzinfo=z).utcoffset() != nxt.replace(tzinfo=z).utcoffset():
+                days.extend([day, nxt])
+            day = nxt
         step = _dt.timedelta(minutes=30)
-        while t.year == year:
-            o0 = t.replace(tzinfo=z, fold=0).utcoffset()
-            o1 = t.replace(tzinfo=z, fold=1).utcoffset()
-            if o0 != o1:
-                # in a fold the first occurrence has the larger offset (clocks go back); in a gap fold=0 gives the
-                # offset before the transition, which is the smaller one
-                out.append((t, "fold" if o0 > o1 else "gap"))
-            t += step
+        for day in days:
+            for k in range(48):
+                t = day + k * step
+                o0 = t.replace(tzinfo=z, fold=0).utcoffset()
+                o1 = t.replace(tzinfo=z, fold=1).utcoffset()
+                if o0 != o1 and not any(t == w for w, _ in out):
+                    # in a fold the first occurrence has the larger offset (clocks go back); in a gap fold=0 gives
+                    # the offset before the transition, which is the smaller one
+                    out.append((t, "fold" if o0 > o1 else "gap"))
     _AMBIG_CACHE[key] = out
     return out
 
